@@ -78,7 +78,7 @@ TEXT = {
 }
 
 NOTE = {
-    "C01": "Trusted: reference model (Vec + occurrence lists), rustc/std, the child-process runner. Bounds: see evidence.coverage.bounds; lengths near 2^43 not reachable.",
+    "C01": "Trusted: reference model (Vec + occurrence lists), rustc/std, the child-process runner. Bounds: see evidence.coverage.bounds; lengths near 2^43 not reachable. The thorough tier repeats the sweep under AddressSanitizer.",
     "C02": "Trusted: reference model, the hook's permutation code (add-only, off by default), minimum_redundancy (used only to label code shapes). Known finding KF2 (codes > 32 bits).",
     "C03": "Trusted: reference model, hook permutation code. Known finding KF2 (binary codes > 32 bits).",
     "C08": "Trusted: Vec<bool> reference, stateright's BFS. Known finding KF1 (BitVectorMut::get_bits off by one, pinned by the repository's own test). Depth bounds in the evidence.",
@@ -94,9 +94,9 @@ NOTE = {
     "C19": "Trusted: the digest. Position-list constructors are compared on vectors ending with a one (a position list cannot express trailing zeros).",
     "C12": "Trusted: VecDeque reference. Double-ended histories are exhaustive for sequences up to length 4; longer inputs only for the forward iterators.",
     "C13": "Trusted: Vec<u8> reference (v mod 4 in two's complement), stateright's BFS.",
-    "C05": "Trusted: reference model (Vec<u8>), runner. Lengths near 2^43 (44-bit counters) not reachable.",
-    "C06": "Trusted: reference model (Vec<bool>), runner.",
-    "C07": "Trusted: reference model (Vec<bool>), runner. Position-list constructors are compared on the vector that ends at the last one.",
+    "C05": "Trusted: reference model (Vec<u8>), runner. Lengths near 2^43 (44-bit counters) not reachable. Thorough tier also under AddressSanitizer.",
+    "C06": "Trusted: reference model (Vec<bool>), runner. Thorough tier also under AddressSanitizer.",
+    "C07": "Trusted: reference model (Vec<bool>), runner. Position-list constructors are compared on the vector that ends at the last one. Thorough tier also under AddressSanitizer.",
 }
 
 
